@@ -179,6 +179,17 @@ func enumerate(visit func(idx int64, family string, nontrivial bool, mk func() I
 						emit("wkb-count", true, mut(func(b []byte) []byte { putU32(b[f.Off:], little, v); return b }))
 						emit("hex-count", true, hexmut(func(b []byte) []byte { putU32(b[f.Off:], little, v); return b }))
 					}
+					// double fault: an inflated count followed by a truncation at every later offset
+					big := []uint32{1 << 28}
+					if tier == "thorough" {
+						big = []uint32{1 << 16, 1 << 28, 0xffffffff}
+					}
+					for _, v := range big {
+						for l := f.Off + 4; l < len(enc); l++ {
+							v, l := v, l
+							emit("wkb-count+prefix", true, mut(func(b []byte) []byte { putU32(b[f.Off:], little, v); return b[:l] }))
+						}
+					}
 				case "type":
 					for _, v := range typeValues {
 						v := v
@@ -580,8 +591,8 @@ func main() {
 	}
 	os.Setenv("VERIF_TIER", tier)
 	r := report.New("C07", tier, "fault_enumeration")
-	r.Rule = "E4: for every valid WKB encoding of the bounded structure-tree corpus (both byte orders): every prefix, every single-bit flip, every count field <- {0,n-1,n+1,2^8,2^16,2^24,2^28,2^31,2^32-1}, every type code <- 25 foreign values and 1..7, every byte-order flag <- {flipped,2,0xff}; the structural faults again through the hex decoder plus odd length / non-hex character at every position; all byte strings of length <=2, all (order byte, type code) headers, nine-byte inflated-count messages, collections nested to depth 1..64,128,1024,7281; GeoJSON: 12 type spellings x all JSON values of depth<=3(4) over 6 leaves, every prefix of every valid document, deep nesting, typed Geometry values and nil. Oracle: no panic, exactly one of geometry/error, bytes allocated (exact TotalAlloc delta in a single-goroutine worker) <= 256*len+64KiB, success => re-encode/decode fixed point. Non-trivial = every faulted (non-valid-corpus) input."
-	r.Assumptions = []string{"single faults only; inputs are derived from the corpus or from the listed synthetic families", "allocation bound constants 256 B/byte + 64 KiB chosen with >= 4x head-room over the valid corpus (max ratio reported as max_alloc_ratio)"}
+	r.Rule = "E4: for every valid WKB encoding of the bounded structure-tree corpus (both byte orders): every prefix, every single-bit flip, every count field <- {0,n-1,n+1,2^8,2^16,2^24,2^28,2^31,2^32-1}, every inflated count combined with a truncation at every later offset (double fault), every type code <- 25 foreign values and 1..7, every byte-order flag <- {flipped,2,0xff}; the structural faults again through the hex decoder plus odd length / non-hex character at every position; all byte strings of length <=2, all (order byte, type code) headers, nine-byte inflated-count messages, collections nested to depth 1..64,128,1024,7281; GeoJSON: 12 type spellings x all JSON values of depth<=3(4) over 6 leaves, every prefix of every valid document, deep nesting, typed Geometry values and nil. Oracle: no panic, exactly one of geometry/error, bytes allocated (exact TotalAlloc delta in a single-goroutine worker) <= 256*len+64KiB, success => re-encode/decode fixed point. Non-trivial = every faulted (non-valid-corpus) input."
+	r.Assumptions = []string{"single faults (plus the count+truncation double fault); inputs are derived from the corpus or from the listed synthetic families", "allocation bound constants 256 B/byte + 64 KiB chosen with >= 4x head-room over the valid corpus (max ratio reported as max_alloc_ratio)"}
 	sum := fault.Sweep(r, 16, 4<<20, 90*time.Second, func(idx int64) (string, interface{}) {
 		var sig string
 		var det interface{}
